@@ -923,6 +923,56 @@ def rule_text_sync(prog):
                 c.loc((bad or fb)["sp"]), "`line.len()` of a line produced by `lines()`/`split` is added up as a byte distance: the "
                 "terminator (`\n` or `\r\n`) is not part of the line, so offsets are wrong in documents with CRLF or mixed line endings",
                 ("lines",))
+    # a column behind the end of its line means the end of that line: the scan for a client position has an exit that
+    # depends on the *line* alone (taken at the line break of the requested line, or when the line counter passes it)
+    gi = cv.get("get_insertion_index")
+    if gi is not None:
+        pos_ids = set()
+        for pp in gi["params"]:
+            for bd in hir.pat_bindings(pp):
+                if "Position" in c.tstr(bd["bt"]):
+                    pos_ids.add(bd["id"])
+
+        def reads(e, fld):
+            """does e read <position>.<fld> (directly or through a local defined from it)?"""
+            for x in hir.nodes(e):
+                if x.get("k") == "Field" and x["name"] == fld:
+                    pl = hir.path_local(hir.strip_ref(x["base"]))
+                    if pl and pl["id"] in pos_ids:
+                        return True
+                pl = hir.path_local(x) if x.get("k") == "Path" else None
+                if pl and pl["id"] in derived.get(fld, ()):
+                    return True
+            return False
+
+        derived = {"line": set(), "character": set()}
+        for _ in range(3):
+            for l in hir.nodes(gi["body"], "Let"):
+                if l.get("init") is None:
+                    continue
+                for fld in ("line", "character"):
+                    if reads(l["init"], fld):
+                        for bd in hir.pat_bindings(l["pat"]):
+                            derived[fld].add(bd["id"])
+        loops = [n for n in hir.nodes(gi["body"]) if n.get("k") in ("ForLoop", "While", "Loop")]
+        if not loops:
+            out.add("document::get_insertion_index", "a column behind the end of a line is clamped to the end of that line", None,
+                    c.loc(gi["sp"]), "no character scan found (other construction): not decided", ("clamp",))
+        else:
+            ok = False
+            for lp in loops:
+                for n, parents in hir.walk(lp["body"]):
+                    if n.get("k") not in ("Ret", "Break"):
+                        continue
+                    for pr in parents:
+                        if pr.get("k") == "If" and reads(pr["cond"], "line") and not reads(pr["cond"], "character"):
+                            ok = True
+                        if pr.get("k") == "Arm" and pr.get("guard") is not None and reads(pr["guard"], "line") and not reads(pr["guard"], "character"):
+                            ok = True
+            out.add("document::get_insertion_index", "a column behind the end of a line is clamped to the end of that line", ok,
+                    c.loc(gi["sp"]), "the scan only stops where line *and* column match: for a column behind the end of its line it runs "
+                    "on into the following lines and answers with the end of the document (LSP: such a column means the end of the line); "
+                    "an edit sent with that position is applied somewhere else than in the client's copy", ("clamp",))
     # the order of a batch is the order of application
     reord = [n for n in hir.nodes(b["body"], "MethodCall") if n["m"] in ("rev", "reverse", "sort", "sort_by", "sort_by_key", "sort_unstable",
                                                                           "sort_unstable_by", "sort_unstable_by_key", "sort_by_cached_key")]
